@@ -30,6 +30,14 @@ def streaming(R, thorough):
     for cfg in ("MCStreamingMdBroken.cfg", "MCStreamingBlakeBroken.cfg"):
         if not R.tlc("sys/Streaming.tla", cfg, workers=2, timeout=600).violated:
             raise vlib.MachineryError("vacuity: %s is not rejected" % cfg)
+    # the key-power precomputation of the vectorised Poly1305 backend, every clamped key of the scaled model
+    r = R.tlc("sys/PolyPowers.tla", "MCPolyPowers.cfg", workers=8, timeout=900, heap="6g")
+    if r.violated:
+        R.violation("PolyPowers.tla: a stored power of r is not r^2 / r^4: %s" % r.tail(30), r.out, name="model")
+    if not R.tlc("sys/PolyPowers.tla", "MCPolyPowersBroken.cfg", workers=4, timeout=600, heap="6g").violated:
+        raise vlib.MachineryError("vacuity: MCPolyPowersBroken.cfg (dropped carry) is not rejected")
+    st += r.distinct; gen += r.generated
+    R.cov["poly1305_powers_model"] = {"module": "PolyPowers", "distinct": r.distinct, "limb_widths": "9/9/7 repacked into 5 x 5 bits", "broken_variants_rejected": 1}
     envs, meta = [], []
     for variant in ("native", "portable"):
         exe = R.cc("mp_driver", ["mp_driver.c"], variant)
